@@ -18,7 +18,9 @@ warnings.filterwarnings("ignore")
 
 THEOREMS = ["Yaw.C08.safe_of_inv", "Yaw.C08.step_inv", "Yaw.C08.crash_safe", "Yaw.C08.run_inv", "Yaw.C08.view_safe",
             "Yaw.C08.crash_classified", "Yaw.C08.flags", "Yaw.C08.rebuild_without_invalidation_unsafe",
-            "Yaw.C08.inplace_ids_unsafe", "Yaw.C08.stale_samples_unsafe", "Yaw.C08.glue_pinned", "Yaw.C08.oldDisk_inv"]
+            "Yaw.C08.inplace_ids_unsafe", "Yaw.C08.stale_samples_unsafe", "Yaw.C08.glue_pinned", "Yaw.C08.oldDisk_inv",
+            "Yaw.C08.build_accepted", "Yaw.C08.build_crash_safe", "Yaw.C08.finalize_accepted", "Yaw.C08.finalize_crash_safe",
+            "Yaw.C08.toFiles_accepted", "Yaw.C08.toFiles_crash_safe"]
 RULE = ("workloads (catalog creation on a fresh path, overwrite of a complete catalog that holds metadata and trees, "
         "metadata computation, tree building on a fresh cache, rebuild with another binning of equal / different bin "
         "count / unbinned <-> binned / forced, CorrFunc -> HDF5 and CorrData / RedshiftData / HistData -> text files on "
